@@ -99,7 +99,7 @@ def make_tree(tree: Path, version: int = 0, modules=None):
         write_version(tree, m, version)
 
 
-def run_once(prefix: Path, payload: dict, timeout=180) -> dict:
+def run_once(prefix: Path, payload: dict, timeout=600) -> dict:
     """One fresh interpreter over the tree."""
     env = {k: v for k, v in os.environ.items() if k not in ('PYTHONDONTWRITEBYTECODE', 'PYTHONPATH', 'PYTHONOPTIMIZE')}
     env['PYTHONPATH'] = str(REPO)
